@@ -36,6 +36,7 @@ pub fn run_c11(args: &Args) -> Report {
     let mut runner = Runner::new(args, "c11");
     for i in 0..n {
         let opts = GenOpts { error_pct: 0, max_sources: 4, allow_run: false, ..GenOpts::default() };
+        let _ = Act { kind: "true", arg: String::new() };
         let mut p = gen_project(&mut rng, &opts);
         // more name shapes: rename some sources
         // look-alikes
@@ -53,6 +54,16 @@ pub fn run_c11(args: &Args) -> Report {
         if rng.chance(1, 2) {
             p.files.push(("lib.min.txtpp.js".to_string(), b"dotted stem\n".to_vec()));
             p.sources.push("lib.min.txtpp.js".to_string());
+        }
+        // one marker command per source, after everything else: runs exactly once per (final) pass
+        for (k, src) in p.sources.clone().iter().enumerate() {
+            let cmd = format!("echo mk{k} >> \"$VERIF_LOG\"");
+            let c = p.file_mut(src).unwrap();
+            if !c.is_empty() && !c.ends_with(b"\n") {
+                c.extend_from_slice(b"\n");
+            }
+            c.extend_from_slice(format!("~\n@@@TXTPP#run {cmd}\n~\n").as_bytes());
+            p.add_cmd(&cmd, vec![Act { kind: "mark", arg: format!("mk{k}") }]);
         }
         materialize(&p, &runner.dir);
         let all_sources: Vec<String> = p.sources.clone();
@@ -178,6 +189,17 @@ pub fn run_c11(args: &Args) -> Report {
                     viol(&mut rep, &runner, idx, format!(
                         "C11: {} over inputs {:?} (recursive={}): output `{out}` of source `{s}` {} but the source {} in the requested set",
                         cfg.mode, inputs, cfg.recursive, if exists { "exists" } else { "does not exist" }, if processed.contains(&j) { "is" } else { "is not" }));
+                }
+            }
+            // naming the same file several ways (source / output name, ./, dir/../, absolute, duplicates, scanned and
+            // named) processes it once: its command ran exactly once
+            if cfg.mode == "build" {
+                for (j, s) in all_sources.iter().enumerate() {
+                    let cnt = c.imp.log.iter().filter(|l| **l == format!("mk{j}")).count();
+                    let want = if processed.contains(&j) { 1 } else { 0 };
+                    if cnt != want {
+                        viol(&mut rep, &runner, idx, format!("C11: source `{s}` was processed {cnt} time(s), expected {want} (inputs {:?}, recursive={})", inputs, cfg.recursive));
+                    }
                 }
             }
             // no other file appears: names of every new file must be an expected output or temp target
